@@ -143,6 +143,7 @@ class Interp:
         self.stubs.update(stubs or {})
         self.methods = methods or {}  # kind -> {method name: FunctionDef}: methods of the analysed class, interpreted when a stand-in is asked for them
         self.module = None            # ast.Module of the analysed code: its top-level constants and functions resolve free names
+        self.src = None               # SourceSet: lets `from mindsdb_sql.x import f` in that module resolve to f's source
         self.steps = 0
         self.max_steps = max_steps
         self.trace = []               # (callee text, args, kwargs) of stub calls
@@ -362,12 +363,11 @@ class Interp:
             if e.id in self.stubs and callable(self.stubs[e.id]) and not e.id[:1].isupper():
                 # a function the rule stands in for, used as a value (render_func = render_dml_query)
                 return (lambda _f: (lambda *a, **k: _f(self, *a, **k)))(self.stubs[e.id])
-            if self.module is not None:
-                for st in self.module.body:
-                    if isinstance(st, ast.Assign) and any(isinstance(t, ast.Name) and t.id == e.id for t in st.targets):
-                        return self.ev(st.value, Env())
-                    if isinstance(st, ast.FunctionDef) and st.name == e.id:
-                        return Closure(st, Env(), self)
+            g_ = self._global(e.id)
+            if g_ is not None:
+                if g_[0] == 'value':
+                    return self.ev(g_[1], Env())
+                return Closure(g_[1], Env(), self)
             if e.id[:1].isupper() or e.id in ('ast', 'sa', 're', 'copy', 'utils', 'steps', 'dt', 'datetime', 'textwrap') or e.id in {k.split('.')[0] for k in self.stubs}:
                 return ClassRef(e.id)       # a class / module of the repository: only used as callee or in isinstance
             raise AnalysisError(f'interpreter: free variable `{e.id}` (line {getattr(e, "lineno", "?")}) has no stand-in')
@@ -503,6 +503,29 @@ class Interp:
             return base[attr]
         return BoundMethod(base, attr)
 
+    def _global(self, name, module=None, depth=0):
+        """definition of a module-level name: ('func', FunctionDef, module) / ('value', expr, module) / None; follows `from mindsdb_sql... import name`"""
+        module = module or self.module
+        if module is None or depth > 3:
+            return None
+        for st in module.body:
+            if isinstance(st, ast.FunctionDef) and st.name == name:
+                return ('func', st, module)
+            if isinstance(st, ast.Assign) and any(isinstance(t, ast.Name) and t.id == name for t in st.targets):
+                return ('value', st.value, module)
+        if self.src is not None:
+            for st in module.body:
+                if isinstance(st, ast.ImportFrom) and st.module and st.module.startswith('mindsdb_sql') and st.level == 0:
+                    for a in st.names:
+                        if (a.asname or a.name) == name:
+                            for cand in (st.module.replace('.', '/') + '.py', st.module.replace('.', '/') + '/__init__.py'):
+                                try:
+                                    m2 = self.src.tree(cand)
+                                except Exception:
+                                    continue
+                                return self._global(a.name, m2, depth + 1)
+        return None
+
     def _comp(self, gens, i, env, emit):
         if i == len(gens):
             emit(env)
@@ -549,10 +572,14 @@ class Interp:
                     return o
                 if callable(f):
                     return f(*args, **kwargs)
-            if self.module is not None:
-                for st in self.module.body:
-                    if isinstance(st, ast.FunctionDef) and st.name == n:
-                        return self.call_function(st, args, kwargs, Env())
+            g_ = self._global(n)
+            if g_ is not None and g_[0] == 'func':
+                saved = self.module
+                self.module = g_[2]
+                try:
+                    return self.call_function(g_[1], args, kwargs, Env())
+                finally:
+                    self.module = saved
             if n == 'len':
                 return len(args[0])
             if n == 'isinstance':
